@@ -215,6 +215,11 @@ func (d *Decoder) DecodeContext(ctx context.Context, v interface{}) error {
 }
 
 func (d *Decoder) DecodeWithOption(v interface{}, optFuncs ...DecodeOptionFunc) error {
+	// options ( and the context of DecodeContext ) are valid for this call only
+	defer func() {
+		d.s.Option.Flags = 0
+		d.s.Option.Context = nil
+	}()
 	header := (*emptyInterface)(unsafe.Pointer(&v))
 	typ := header.typ
 	ptr := uintptr(header.ptr)
